@@ -348,6 +348,12 @@ def _row_view(ctx) -> None:
                (duck[0].node if duck else g_.node),
                message=f"{q_} asks a CELL for a `shape` by attribute: a cell object that happens to have one (a frozen dataclass Tile(shape=(2, 3))) "
                        f"changes the table's shape to (rows, columns, 2, 3) - every t[i, name] and repr then take the wrong branch")
+    # row[name] / t[i, name] read the cell of the column table[name] selects: the FIRST column of that stored name (a left join on
+    # same-named keys, t >> Vector(name='x') repeat a name), then the accessor names (shared with C07.d)
+    from .c07 import row_item_by_name_problems
+    rg_, rprobs_ = row_item_by_name_problems(prog)
+    ctx.ob("d.row-view", rg_, "item-by-name", not rprobs_, "row[name] reads the column table[name] selects (first of that stored name)", rg_.node,
+           message="Row.__getitem__: " + "; ".join(rprobs_[:2]) + " - t[i][name] / t[i, name] and t[name][i] read different columns")
     f = prog.func("table.Row.__init__")
     it = SInterp(prog, f)
     S, T = ("param", f.params[0]), ("param", f.params[1])
